@@ -148,6 +148,12 @@ func (r *vReplica) openMessages(g *protocoltypes.Group) *MessageStore {
 	if err := r.db.registerGroupPrivateKey(g); err != nil {
 		r.n.t.Fatal(err)
 	}
+	// OpenGroup forces the generation of the device's chain key; so do we
+	if md, err := r.ss.GetOwnMemberDeviceForGroup(g); err == nil {
+		if _, err := r.ss.GetShareableChainKey(r.n.ctx, g, md.Member()); err != nil {
+			r.n.t.Fatal(err)
+		}
+	}
 	ms, err := r.db.groupMessageStore(r.n.ctx, g, nil)
 	if err != nil {
 		r.n.t.Fatal(err)
